@@ -797,6 +797,19 @@ func (b *vpC04Beat) end() {
 	<-b.done
 }
 
+// maxGap returns the longest single interval in which the heartbeat was overdue.
+func (b *vpC04Beat) maxGap() time.Duration {
+	b.mu.Lock()
+	defer b.mu.Unlock()
+	var d time.Duration
+	for _, g := range b.gaps {
+		if x := g[1].Sub(g[0]); x > d {
+			d = x
+		}
+	}
+	return d
+}
+
 // lost returns how much of [t0, t1] the heartbeat was overdue.
 func (b *vpC04Beat) lost(t0, t1 time.Time) time.Duration {
 	b.mu.Lock()
